@@ -76,6 +76,11 @@ impl FeoxStore {
         self.version_clock.shard_index(key)
     }
 
+    /// (write-buffer shard of the key, shards, workers); None in memory-only mode
+    pub fn verif_write_shard(&self, key: &[u8]) -> Option<(usize, usize, usize)> {
+        self.write_buffer.as_ref().map(|wb| wb.verif_shard_of(key))
+    }
+
     pub fn verif_clock_value(&self, shard: usize) -> u64 {
         self.version_clock.shards[shard].load(Ordering::Relaxed)
     }
